@@ -211,6 +211,8 @@ class Machine:
         names = [a.arg for a in args.posonlyargs + args.args + args.kwonlyargs]
         if args.vararg:
             names.append(args.vararg.arg)
+        if args.kwarg:
+            names.append(args.kwarg.arg)
         for n in names:
             if n not in c.params:
                 raise EngineError(f"{c.key}: parameter {n} has no sort in the contract")
@@ -659,7 +661,12 @@ class Machine:
                 if decl and not isinstance(v, VHeapRef):
                     self.env[n] = self.fresh_of(decl, n)
                 elif isinstance(v, VHeapRef):
-                    raise EngineError(f"loop {k}: variable {n} holding a container is re-assigned in the loop body")
+                    # re-bound to a container created in an earlier iteration: a new cell with
+                    # unconstrained content (assumes the body does not leak that container elsewhere)
+                    old = self.ctx.cell(v.addr)
+                    if old.kind == "dict":
+                        raise EngineError(f"loop {k}: dict variable {n} is re-assigned in the loop body")
+                    self.env[n] = VHeapRef(self.ctx.alloc(old.kind, same_sort_fresh(old.value, n)), old.kind)
                 else:
                     self.env[n] = same_sort_fresh(v, n)
         for a in sorted(self.mutated_cells(body) | extra_cells):
@@ -671,6 +678,16 @@ class Machine:
                 cell.value = same_sort_fresh(cell.value, f"{cell.kind}{a}")
         if self.ctx.out is not None and any(_has_yield(b) for b in body):
             self.ctx.out = same_sort_fresh(self.ctx.out, "out")  # type: ignore[assignment]
+
+    def entry_ghosts(self, k: int) -> None:
+        """<name>_at<k>: the value a container held when loop k was entered."""
+        for n, v in list(self.env.items()):
+            if isinstance(v, VHeapRef):
+                self.ghost_env[f"{n}_at{k}"] = self.ctx.cell(v.addr).value
+            elif isinstance(v, VTerm):
+                self.ghost_env[f"{n}_at{k}"] = v
+        if self.ctx.out is not None:
+            self.ghost_env[f"out_at{k}"] = self.ctx.out
 
     def check_inv(self, k: int, lc: Loop, phase: str) -> None:
         for u in lc.use:
@@ -686,6 +703,7 @@ class Machine:
 
     def st_While(self, s: ast.While) -> None:
         k, lc = self.loop_contract(s)
+        self.entry_ghosts(k)
         self.check_inv(k, lc, "init")
         self.havoc_for_loop(s.body, set(), k)
         self.assume_inv(lc)
@@ -707,6 +725,11 @@ class Machine:
                 self.ctx.check(z3.And(measure0.term >= 0, m1.term < measure0.term), f"{self.contract.key}/loop{k}/decreases", "decreases")
             raise PathEnd()
         else:
+            # `while xs:` left because xs is empty: the container is literally []
+            if isinstance(s.test, ast.Name):
+                v = self.env.get(s.test.id)
+                if isinstance(v, VHeapRef) and self.ctx.cell(v.addr).kind in ("list", "deque"):
+                    self.ctx.cell(v.addr).value = self.ctx.cell(v.addr).value.sort.empty()
             self.exec_block(s.orelse)
 
     def st_For(self, s: ast.For) -> None:
@@ -738,6 +761,7 @@ class Machine:
                 self.ghost_env[f"rest{k}{suffix}"] = self.ctx.cell(a).value
 
         bind_ghosts()
+        self.entry_ghosts(k)
         self.check_inv(k, lc, "init")
         self.havoc_for_loop(s.body + [ast.Assign(targets=[s.target], value=ast.Constant(0), lineno=0)] if False else s.body,
                             {a for a, _ in streams["cells"]}, k)
@@ -1578,6 +1602,13 @@ class Machine:
                 bound[n] = v
             bound.update(kwargs)
         # coerce to the declared sorts
+        for n in list(bound):
+            v = bound[n]
+            if isinstance(v, VPy) and isinstance(v.obj, tuple) and v.obj and v.obj[0] in ("closure", "lambda"):
+                hook = getattr(self.world, "closure_coerce", None)
+                if hook is None:
+                    raise EngineError(f"call of {key}: a local closure is passed as {n}; the area has no closure contract")
+                bound[n] = hook(self, v.obj, c.params.get(n, ""))
         for n, sname in c.params.items():
             if n in bound and not sname.startswith(("py:", "cls:", "Tuple[", "List[", "Deque[", "Iter[")):
                 try:
